@@ -20,6 +20,9 @@ Decided clause:
        local bounce buffer (the partial-block buffers `tmp` / `partialblock` / `block`) is read
        again before the function returns - keystream stored into a local that is never copied
        out cannot reach the caller's buffer.
+  R3.7 (E11 bit flow) the initial block counter is used at full width: in every crypto_stream function with a parameter `ic`
+       (64-bit for the original ciphers, 32-bit for the IETF variants) each bit of that parameter reaches a call argument or a
+       store - a narrowing on the way to the backend makes counters >= 2^32 alias small ones (keystream reuse).
   R3.6 batches are independent: in the multi-block loops of the SIMD backends no value that was produced
        by the rounds of one batch is carried into the next batch (a loop-carried value at the header of a
        batch loop may only be recomputed from itself, constants and other carried values: byte count,
@@ -145,6 +148,7 @@ def run(ctx, chk):
     # R3.4: no identically-zero carry in the counter arithmetic of the stream units (E12; byte-wise counters of the
     # portable Salsa20 code: u += in[i]; in[i] = u; u >>= 8)
     batch_rule(prog, chk)
+    counter_width_rule(ctx, prog, chk)
     from .. import knownbits
     knownbits.dead_carry_rule(prog, chk, "R3.4", ("crypto_stream/",), floor=5)
     # R3.5: the byte-wise block counters of the portable Salsa20 family carry continuously (u += in[i]; in[i] = u; u >>= 8)
@@ -410,3 +414,46 @@ def batch_rule(prog, chk):
             chk.ob("R3.6", fn, "batch loop at %s scanned for carried cipher state" % fn.loc(blocks[h]["insts"][-1]), True,
                    key="R3.6 %s %s scan-%d" % (name, usub, h))
     chk.floor("R3.6", "multi-block batch loops in the stream backends", nh, 5)
+
+
+def counter_width_rule(ctx, prog, chk):
+    """R3.7: every bit of an initial-counter parameter `ic` flows on (call argument or store)"""
+    from .. import bitflow, e9
+    units = {}
+
+    def bf_of(unit):
+        if unit not in units:
+            units[unit] = bitflow.BitFlow(e9.O2Unit(ctx, unit))
+        return units[unit]
+    n = 0
+    for fn in sorted(prog.functions(), key=lambda f: (f.unit, f.name)):
+        if not fn.unit.startswith(("crypto_stream/", "crypto_secretbox/", "crypto_box/")):
+            continue
+        for k, p in enumerate(fn.params):
+            if p["name"] != "ic" or p["ty"] not in ("i64", "i32"):
+                continue
+            bf = bf_of(fn.unit)
+            if fn.name not in bf.unit.fns:
+                raise AnalysisBroken("R3.7: %s vanished from the -O2 IR of %s" % (fn.name, fn.unit))
+            width = int(p["ty"][1:])
+            dead = []
+            for bit in range(width):
+                r = bf.analyse_int(fn.name, k, bit)
+                if not (r["calls"] or r["stores"] or r["ret"]):
+                    dead.append(bit)
+            n += 1
+            chk.ob("R3.7", fn, "all %d bits of the initial counter ic reach the cipher (call argument / store)" % width, not dead,
+                   detail="bits %s of ic influence nothing: counters that differ only there produce the same keystream" %
+                   (_ranges(dead),) if dead else "", key="R3.7 %s %s" % (fn.sname, fn.unit.split("/")[-1]))
+    chk.floor("R3.7", "functions with an initial-counter parameter", n, 12)
+
+
+def _ranges(bits):
+    out, i = [], 0
+    while i < len(bits):
+        j = i
+        while j + 1 < len(bits) and bits[j + 1] == bits[j] + 1:
+            j += 1
+        out.append("%d" % bits[i] if i == j else "%d..%d" % (bits[i], bits[j]))
+        i = j + 1
+    return ", ".join(out)
